@@ -25,7 +25,7 @@ var Quirks = []Quirk{
 	{ID: "C01-nested-inline-object", Detect: hasNestedInlineObject, SigAny: []string{"/types", "struct{…}"}},
 	{ID: "C01-usertype-in-inline-object", Detect: hasUserTypeInInlineObject, SigAny: []string{"undefined: _"}},
 	{ID: "C01-body-attr-optional-nonpointer", Detect: hasBodyAttrOptionalNonPointer, SigAny: []string{"cannot use &_ (value of type *"}},
-	{ID: "C01-alias-path-param-empty-body", Detect: hasAliasPathParamEmptyBody, SigAny: []string{"client/encode_decode: cannot use string(_._)", "client/encode_decode: cannot use"}},
+	{ID: "C01-path-param-named-p", Detect: hasPathParamNamedP, SigAny: []string{"client/encode_decode: cannot use"}},
 	{ID: "C01-body-fields-user-type", Detect: hasBodyFieldsUserType, SigAny: []string{"client/types: cannot use _ (variable of type *struct{…}"}},
 	{ID: "C01-body-fields-inline-required", Detect: hasBodyFieldsInlineRequired, SigAny: []string{"== nil (mismatched types", "cannot indirect"}},
 }
@@ -34,7 +34,7 @@ var Quirks = []Quirk{
 // the generator steers away from exactly those.
 func OpenQuirks() map[string]bool {
 	out := map[string]bool{}
-	for _, id := range []string{"C02-body-fields-client-sends-whole-payload"} {
+	for _, id := range []string{"C02-body-fields-client-sends-whole-payload", "C02-primitive-payload-path-param-named-p", "C02-client-path-slash-unescaped"} {
 		if kf.Open(id) {
 			out[id] = true
 		}
@@ -243,17 +243,15 @@ func BodyAttrs(d *m.Design, meth *m.Method) []string {
 	return out
 }
 
-func hasAliasPathParamEmptyBody(d *m.Design) bool {
+// hasPathParamNamedP: an object payload with a path parameter attribute named "p".
+func hasPathParamNamedP(d *m.Design) bool {
 	return eachMethod(d, func(s *m.Service, meth *m.Method) bool {
 		h := meth.HTTP
 		if h == nil || meth.Payload == nil || d.ObjectFields(meth.Payload) == nil {
 			return false
 		}
-		if len(BodyAttrs(d, meth)) > 0 {
-			return false
-		}
 		for _, p := range h.Path {
-			if f := d.FieldByName(meth.Payload, p.Attr); f != nil && f.Attr.Type.Kind == m.User {
+			if p.Attr == "p" {
 				return true
 			}
 		}
